@@ -1,0 +1,49 @@
+//! Verification-only hooks, compiled only with `--cfg grenad_verif`.
+//!
+//! Everything in here is additive: without the cfg flag nothing of this exists and with
+//! the flag but without calling a setter every default is unchanged.
+
+use std::cell::Cell;
+
+pub use crate::varint::{varint_decode32, varint_encode32};
+
+thread_local! {
+    static MIN_SORTER_MEMORY_OVERRIDE: Cell<Option<usize>> = const { Cell::new(None) };
+    static INITIAL_SORTER_VEC_SIZE_OVERRIDE: Cell<Option<usize>> = const { Cell::new(None) };
+}
+
+/// Overrides, for the calling thread only, the minimum sorter budget and the initial buffer
+/// size used when reallocation is allowed. `None` restores the shipped constants.
+///
+/// Both values must be at least 16 bytes and the initial size must not exceed the minimum.
+pub fn set_sorter_constants(min_memory: Option<usize>, initial_vec_size: Option<usize>) {
+    if let Some(min) = min_memory {
+        assert!(min >= 16);
+    }
+    if let Some(initial) = initial_vec_size {
+        assert!(initial >= 16);
+        if let Some(min) = min_memory {
+            assert!(initial <= min);
+        }
+    }
+    MIN_SORTER_MEMORY_OVERRIDE.with(|c| c.set(min_memory));
+    INITIAL_SORTER_VEC_SIZE_OVERRIDE.with(|c| c.set(initial_vec_size));
+}
+
+pub(crate) fn min_sorter_memory_override() -> Option<usize> {
+    MIN_SORTER_MEMORY_OVERRIDE.with(|c| c.get())
+}
+
+pub(crate) fn initial_sorter_vec_size_override() -> Option<usize> {
+    INITIAL_SORTER_VEC_SIZE_OVERRIDE.with(|c| c.get())
+}
+
+/// The numbers the sorter's spill decision reads (see `Sorter::verif_state`).
+#[derive(Debug, Clone, Copy, PartialEq, Eq, Hash, PartialOrd, Ord)]
+pub struct SorterState {
+    pub buffer_len: usize,
+    pub entries_len: usize,
+    pub bounds_count: usize,
+    pub chunks_len: usize,
+    pub dump_threshold: usize,
+}
